@@ -779,6 +779,14 @@ def check_C13(ctx):
         recs.append((e, idx))
     nums = b.add('NUMREPR %d %d' % (ctx.seed, sizes(tier, 2000, 50000)))
     b.run()
+    # the same objects read back: eval(repr(obj)) == obj (implementation only)
+    b3 = Batch()
+    rt = [(idx, b3.add('RTOBJ ' + b.lines[idx['X']])) for e, idx in recs]
+    b3.run(model=False)
+    for idx, k in rt:
+        rep.stats['objects_read_back'] += 1
+        if b3.impl[k].startswith('false') or b3.impl[k].startswith('ERROR'):
+            rep.oracle_fail('eval(repr(obj)) != obj for a point / derivative object: %s' % b3.impl[k], b3, [k])
     for e, idx in recs:
         rep.cases += 1
         rep.distinct.add(sx.to_sx(e))
@@ -901,6 +909,10 @@ def arg_stream(rng, n):
     return out
 
 
+def _rej(s_):
+    return kind(s_) in ('REJECT', 'RAISES')
+
+
 def check_C15(ctx):
     rng, tier = ctx.rng, ctx.tier
     rep = Report('C15')
@@ -923,11 +935,11 @@ def check_C15(ctx):
         rep.corr(b, i, 'OPPOW')
         rep.corr(b, j, 'OPBIN')
         for k_ in (i, j):
-            if b.status[k_] == 'disagree' and (kind(b.impl[k_]) == 'REJECT') != (kind(b.model[k_]) == 'REJECT'):
+            if b.status[k_] == 'disagree' and _rej(b.impl[k_]) != _rej(b.model[k_]):
                 # the model accepts exactly the documented operands (C15_pow_integer, C15_rejects)
                 rep.oracle_fail('an operator %s an operand that the documented range %s: %s' % (
-                    'accepted' if kind(b.model[k_]) == 'REJECT' else 'rejected',
-                    'excludes' if kind(b.model[k_]) == 'REJECT' else 'includes', b.impl[k_][:120]), b, [k_])
+                    'accepted' if _rej(b.model[k_]) else 'rejected',
+                    'excludes' if _rej(b.model[k_]) else 'includes', b.impl[k_][:120]), b, [k_])
         rep.stats['pow_' + kind(b.impl[i])] += 1
         rep.sample(b.lines[i] + '  =>  ' + b.impl[i])
     for x, y, i in pairs:
@@ -973,11 +985,11 @@ def check_C16(ctx):
             rep.stats['nonfinite_parameter'] += 1
             continue
         rep.corr(b, i, key[0])
-        if b.status[i] == 'disagree' and (kind(b.impl[i]) == 'REJECT') != (kind(b.model[i]) == 'REJECT'):
+        if b.status[i] == 'disagree' and _rej(b.impl[i]) != _rej(b.model[i]):
             # the model accepts exactly the documented ranges (C16_ctor_nth, C16_ctor_base, C16_ctor_operands)
             rep.oracle_fail('a constructor %s an argument that the documented range %s: %s' % (
-                'accepted' if kind(b.model[i]) == 'REJECT' else 'rejected',
-                'excludes' if kind(b.model[i]) == 'REJECT' else 'includes', b.impl[i][:120]), b, [i])
+                'accepted' if _rej(b.model[i]) else 'rejected',
+                'excludes' if _rej(b.model[i]) else 'includes', b.impl[i][:120]), b, [i])
         rep.stats['%s_%s' % (key[0], kind(b.impl[i]))] += 1
         rep.sample(b.lines[i] + '  =>  ' + b.impl[i])
         _ = st
